@@ -515,3 +515,55 @@ pub fn iofault_case<T: ZooVal + Serialize + Deserialize + WithSchema>(name: &str
     }
     out
 }
+
+/// C08 across versions: data saved by the definition current at version `i` is loaded by the later definition
+/// `TJ` through a faulty reader.  The loader then runs the code that skips removed fields, fills defaults and
+/// converts — code that never runs when a type loads its own current version.
+pub fn xver_read_case<TI: ZooVal + Serialize + WithSchema, TJ: ZooVal + Deserialize + WithSchema>(fam: &str, i: u32, j: u32, r: &mut Rng, nplans: usize) -> Vec<String> {
+    let mut out = Vec::new();
+    let x = TI::gen(r, 6);
+    for with_schema in [true, false] {
+        let mut good = Vec::new();
+        let saved = catch_unwind(AssertUnwindSafe(|| if with_schema { savefile::save(&mut good, i, &x) } else { savefile::save_noschema(&mut good, i, &x) }));
+        if !matches!(saved, Ok(Ok(()))) {
+            continue;
+        }
+        let load = |rd: &mut dyn Read| -> String {
+            let r = catch_unwind(AssertUnwindSafe(|| -> Result<String, SavefileError> {
+                let mut rd = rd;
+                let v: TJ = if with_schema { savefile::load(&mut rd, j)? } else { savefile::load_noschema(&mut rd, j)? };
+                Ok(format!("(ok {})", v.sx(true)))
+            }));
+            match r {
+                Ok(Ok(s)) => s,
+                Ok(Err(e)) => format!("(err {})", err_class(&e)),
+                Err(_) => format!("(panic {})", panic_class(&last_panic())),
+            }
+        };
+        let reference = load(&mut std::io::Cursor::new(&good[..]));
+        if !reference.starts_with("(ok") {
+            // (a history outside the documented rules: nothing to compare with)
+            out.push("#stat xr-reference-not-loadable 1".into());
+            continue;
+        }
+        for plan in reader_plans(r, good.len(), nplans) {
+            let mut rd = FaultyReader::new(plan.clone(), &good);
+            let rep = load(&mut rd);
+            let ctx = format!("family={} saved_by=v{} loaded_by=v{} schema={} plan={} len={}", fam, i, j, with_schema, plan.name(), good.len());
+            out.push(format!("#stat xr-{}-{} 1", if plan.benign() { "benign" } else { "fault" }, rep.trim_matches(|c| c == '(' || c == ')').split(' ').next().unwrap_or("")));
+            if rep.starts_with("(panic") {
+                out.push(format!("!C08 read-fault-panic {} got={}", ctx, rep));
+            } else if plan.benign() {
+                if rep != reference {
+                    out.push(format!("!C08 chunking-changes-load-result {} whole={} chunked={}", ctx, &reference[..reference.len().min(100)], &rep[..rep.len().min(100)]));
+                }
+            } else if rd.fired && rep.starts_with("(ok") {
+                // the reader returned a hard error to some read call and the load still produced a value
+                out.push(format!("!C08 read-fault-swallowed {} at={} got={} intact={}", ctx, rd.pos, &rep[..rep.len().min(100)], rep == reference));
+            } else if !rd.fired && rep != reference {
+                out.push(format!("!C08 load-differs-although-no-fault-was-reached {} got={}", ctx, &rep[..rep.len().min(100)]));
+            }
+        }
+    }
+    out
+}
